@@ -5,9 +5,9 @@
 From Coq Require Import List NArith ZArith Bool Lia.
 From ApiFu Require Import Base.Sexp.
 From ApiFu Require Syn.Ast Syn.ParserModel Syn.FrontEnd Syn.FrontEndProofs.
-From ApiFu Require Vld.Ast Vld.ValidatorModel Vld.ProofsCommon Vld.ProofsTotal Vld.ValidatorProofs.
+From ApiFu Require Vld.Ast Vld.ValidatorModel Vld.ProofsCommon Vld.ProofsTotal Vld.ValidatorProofs Vld.ProofsMemo Vld.MemoEquiv.
 From ApiFu Require Val.Values Val.CoerceSpec Val.CoerceTotal ExeA.ArgData ExeA.ArgArgs ExeA.ArgModel ExeA.ArgSpec ExeA.ArgHyps ExeA.ArgProofs.
-From ApiFu Require Import Pipe.Convert Pipe.Compose Pipe.PositionsProofs.
+From ApiFu Require Import Pipe.Convert Pipe.Compose Pipe.PositionsProofs Pipe.FieldPositions.
 Import ListNotations.
 
 (** ** the front half: graphql.ParseAndValidate from bytes *)
@@ -25,7 +25,7 @@ Proof.
   rewrite Hp. destruct es as [|e es].
   - destruct tree as [d|]; [|exfalso; apply (Hne eq_refl); reflexivity].
     unfold validate_doc.
-    destruct (Vld.ProofsTotal.validate_no_panic pi VS F (vld_of_syn d) Hpi) as (errs & Hv).
+    destruct (Vld.ProofsMemo.validate_memo_no_panic pi VS F (vld_of_syn d) Hpi) as (errs & Hv).
     rewrite Hv. destruct errs; exact I.
   - destruct tree; exact I.
 Qed.
@@ -45,7 +45,7 @@ Proof.
   destruct (Syn.FrontEndProofs.parse_document_bytes_never_panics bs) as (tree & es & Hp & Hne).
   rewrite Hp. destruct es as [|e es].
   - destruct tree as [d|]; [|exfalso; apply (Hne eq_refl); reflexivity].
-    destruct (Vld.ProofsTotal.validate_no_panic pi VS F (vld_of_syn d) Hpi) as (errs & Hv).
+    destruct (Vld.ProofsMemo.validate_memo_no_panic pi VS F (vld_of_syn d) Hpi) as (errs & Hv).
     unfold validate_doc in *. rewrite Hv. destruct errs as [|e es].
     + right; right. exists d. auto.
     + right; left. exists d, e, es. auto.
@@ -282,11 +282,13 @@ Theorem pipeline_order_independent pi1 pi2 VS F ES bs opname raw W :
                        pipeline_order pi2 VS F ES bs opname raw W = PInvalid e2 l2).
 Proof.
   intros H1 H2. unfold pipeline_order, parse_and_validate_order.
-  destruct (Syn.FrontEnd.parse_document_bytes bs) as [tree es|]; [|left; reflexivity].
+  destruct (Syn.FrontEnd.parse_document_bytes bs) as [tree es|] eqn:Hp; [|left; reflexivity].
   destruct es as [|e es]; [|left; reflexivity].
   destruct tree as [d|]; [|left; reflexivity].
   unfold validate_doc.
-  destruct (Vld.ValidatorProofs.validate_verdict_order pi1 pi2 VS F (vld_of_syn d) H1 H2)
+  destruct (Vld.MemoEquiv.validate_memo_verdict_order pi1 pi2 VS F (vld_of_syn d) H1 H2
+              (proj2 (Vld.MemoEquiv.field_positions_distinct_pti _ VS F (vld_of_syn d))
+                     (parsed_field_positions_distinct bs d [] Hp)))
     as [(E1 & E2)|(e1 & l1 & e2 & l2 & E1 & E2)]; rewrite E1, E2.
   - left; reflexivity.
   - right. exists e1, l1, e2, l2. split; reflexivity.
